@@ -8,6 +8,7 @@
 //             b  binary overload sets x every argument pair
 //             c  C++-receives direction: boxed_cast<T>(value) for every (argument kind, requested form)
 //             a  wrong number of arguments
+//             v  vector_conversion<std::vector<int>>: script Vectors of several element kinds x conversion registered or not
 //             t  user type_conversion<From, To>: forms of a To parameter x arguments x conversion registered or not
 #include "vh_common.hpp"
 
@@ -319,6 +320,41 @@ int main(int argc, char **argv) {
                            jstr(j < tcat.size() ? tcat[j].first : "").c_str(), order, jstr(a.first).c_str(), jstr(oc).c_str(),
                            jstr(g_entered >= 0 ? tcat[static_cast<size_t>(g_entered)].first : "").c_str(), g_count, jstr(g_recv).c_str());
             }
+          }
+        }
+      }
+    }
+  }
+  // vector_conversion<std::vector<int>>: a script Vector reaches a std::vector<int> parameter only where the conversion is registered and
+  // only when every element is an int; the function receives exactly the elements
+  {
+    const auto show = [](const std::vector<int> &v) {
+      std::string r = "vec:";
+      for (size_t i = 0; i < v.size(); ++i) { r += (i ? "," : "") + std::to_string(v[i]); }
+      return r;
+    };
+    const std::vector<std::pair<std::string, Proxy_Function>> vcat = {
+        {"vecint", fun([show](std::vector<int> v) { enter(0, show(v)); })},
+        {"cvecint&", fun([show](const std::vector<int> &v) { enter(1, show(v)); })},
+        {"BV", fun([](const Boxed_Value &) { enter(2, "BV"); })},
+    };
+    const std::vector<std::pair<std::string, std::string>> vargs = {{"ints", "[1, 2, 3]"}, {"empty", "Vector()"}, {"mixed", "[1, \"s\"]"}, {"dbls", "[1.5, 2.5]"},
+        {"nested", "[[1]]"}, {"ivar", "iv"}, {"svar", "sv"}, {"longs", "[1l, 2l]"}, {"vvar", "vv"}};
+    for (int conv = 0; conv <= 1; ++conv) {
+      for (size_t i = 0; i < 2; ++i) {
+        for (size_t j : {vcat.size(), size_t{2}}) {
+          Fixture fx;
+          auto &c = *fx.chai;
+          if (conv) { c.add(vector_conversion<std::vector<int>>()); }
+          c.eval("var vv = [4, 5]");
+          c.add(vcat[i].second, "ov");
+          if (j < vcat.size()) { c.add(vcat[j].second, "ov"); }
+          for (const auto &a : vargs) {
+            std::string oc;
+            call(c, "ov(" + a.second + ")", oc);
+            std::fprintf(rows, "{\"k\":\"v\",\"conv\":%d,\"first\":%s,\"second\":%s,\"arg\":%s,\"oc\":%s,\"entered\":%s,\"n\":%d,\"recv\":%s}\n", conv, jstr(vcat[i].first).c_str(),
+                         jstr(j < vcat.size() ? vcat[j].first : "").c_str(), jstr(a.first).c_str(), jstr(oc).c_str(),
+                         jstr(g_entered >= 0 ? vcat[static_cast<size_t>(g_entered)].first : "").c_str(), g_count, jstr(g_recv).c_str());
           }
         }
       }
